@@ -476,7 +476,7 @@ Corrupted record (python3 checks/c14.py --selftest): one blank added to the lead
 the same renderings -> 0 violations, no drift; every action of the machine taken (12 states per rendering).
 
 Unchanged tree: quick passes (exit 0, KNOWN-FINDING for the `.digits` defect) with VERIF_SEED default and 777.
-The candidate patch hooks/fix-c14-escape-floatstate.diff makes `x := v _<nl>.1` parse like `x := v .1` (checked by hand).
+The candidate patch hooks/candidate-c14-escape-floatstate.diff makes `x := v _<nl>.1` parse like `x := v .1` (checked by hand).
 -coverage 1 is unusable with these modules (heap exhaustion on a 5-second configuration); non-vacuity is shown by the
 state count (12 states = 11 actions per rendering) instead.
 """
